@@ -1071,6 +1071,39 @@ def tag_compare_rules(m: Bf3Model, chk, pid):
         enc_flag = nw.d["kwargs"].get("encrypt_by_session_key")
         if ok and not (enc_flag is not None and is_const(enc_flag) and cval(enc_flag) is True):
             ok, why = False, "component decrypted on read is not marked encrypt_by_session_key (would be written back in clear)"
+        if ok:
+            # the decrypting arm is taken exactly for the value the writer stores: description[ENC] == b"\x02" as BYTES (a numeric comparison of the decoded
+            # value would also accept 00 02, 00 00 02, ...: content that is not marked as encrypted would be "decrypted")
+            known = [(f[1], bool(f[2])) for f in nw.ctx if f[0] == "if"] + [(c, bool(p_)) for c, p_ in (getattr(nw, "facts", ()) or ())]
+            sel = False
+            for c_, p_ in known:
+                r_ = rel(c_, p_)
+                for a_ in ([r_] if r_[0] == "rel" else r_[1] if r_[0] == "and" else []):
+                    if a_[0] == "rel" and a_[1] == "Eq" and a_[3] is not None:
+                        for x, y in ((a_[2], a_[3]), (a_[3], a_[2])):
+                            k_ = _desc_lookup(x, ddict)
+                            if k_ is not None and is_const(k_) and cval(k_) == enc_tag and is_const(unsnap(y)) and cval(unsnap(y)) == want:
+                                sel = True
+            if not sel:
+                ok, why = False, "the decrypting arm is not selected by description[ENC] == %r compared as bytes" % (want,)
+        if ok:
+            # ... and every other way a component is built by the reader is known NOT to be that case (an arm that hands back the stored bytes of a component
+            # marked ENC = SESSIONKEY -- e.g. when MAC checking is switched off -- returns ciphertext as if it were content)
+            for other in news:
+                if other is dec[0][0]:
+                    continue
+                known = [(f[1], bool(f[2])) for f in other.ctx if f[0] == "if"] + [(c, bool(p_)) for c, p_ in (getattr(other, "facts", ()) or ())]
+                excluded = False
+                for c_, p_ in known:
+                    r_ = rel(c_, p_)
+                    for a_ in ([r_] if r_[0] == "rel" else r_[1] if r_[0] == "and" else []):
+                        if a_[0] == "rel" and a_[1] == "NotEq" and a_[3] is not None:
+                            for x, y in ((a_[2], a_[3]), (a_[3], a_[2])):
+                                k_ = _desc_lookup(x, ddict)
+                                if k_ is not None and is_const(k_) and cval(k_) == enc_tag and is_const(unsnap(y)) and cval(unsnap(y)) == want:
+                                    excluded = True
+                if not excluded:
+                    ok, why = False, "a component is also built from the stored bytes on a path where the ENC tag may say SESSIONKEY (%s): encrypted content would be returned undecrypted" % other.where
     chk.require(ok, P("decrypt-on-read"), BF3 + ".Bf3Component.from_encrypted_raw_data", "create_AES128(session_key).decrypt(payload), flag kept", dec[0][0].where if dec else "",
                 "the ENC=SESSIONKEY arm decrypts the stored bytes with the session key (IV default) and keeps the encryption flag", why)
 
